@@ -122,6 +122,17 @@ fn main() {
     let code = match argv.get(1).map(|s| s.as_str()) {
         Some("probe") => probe(&argv[2..], &mut out),
         Some("rejects") => rejects(&mut out, pos.get(0).and_then(|s| s.parse().ok()).unwrap_or(500), seed),
+        Some("covered") => {
+            // which active exclusion rule (if any) covers the saved case?
+            let mut ex = gen::Excl::default();
+            for f in report::load_findings() { if f.status == "open" { if let Some(e) = f.exclusion { for n in e.split(',') { ex.active.insert(n.trim().to_string()); } } } }
+            for p in &pos {
+                let v = report::read_json(std::path::Path::new(p)).unwrap();
+                let case: sem::SemCase = serde_json::from_value(v["case"].clone()).unwrap();
+                writeln!(out, "{} -> {:?}", p, excl::find_excluded(&case.prog, &ex)).ok();
+            }
+            0
+        }
         Some("refc") => refc_debug(&mut out, &pos.get(0).cloned().unwrap_or_default()),
         Some("replay") => {
             let path = pos.get(0).cloned().unwrap_or_default();
